@@ -477,6 +477,12 @@ func (p *parser) parseBracketMember(left ast.Expression) ast.Expression {
 }
 
 func (p *parser) parseNewExpression() ast.Expression {
+	// `new new new ...` recurses through parseLeftHandSideExpression without
+	// passing any other guarded production.
+	if p.tooDeep() {
+		return &ast.BadExpression{From: p.idx, To: p.idx}
+	}
+	defer p.leaveNesting()
 	idx := p.expect(token.NEW)
 	callee := p.parseLeftHandSideExpression()
 	node := &ast.NewExpression{
